@@ -4,6 +4,7 @@ from .base import (
     BaseReader, BaseWriter, CaptionSet, CaptionList, Caption, CaptionNode,
 )
 from .exceptions import CaptionReadNoCaptions, InvalidInputError
+from .utils import split_lines
 
 
 class SRTReader(BaseReader):
@@ -18,7 +19,7 @@ class SRTReader(BaseReader):
         if not isinstance(content, str):
             raise InvalidInputError('The content is not a unicode string.')
 
-        lines = content.splitlines()
+        lines = split_lines(content)
         start_line = 0
         captions = CaptionList()
 
